@@ -61,9 +61,11 @@ TVerifyT == /\ IsEvent("Verify") /\ cur.state = "loaded"
             /\ \/ VerifyT(Observed)
                \/ /\ Padded /\ cur' = [cur EXCEPT !.state = "done"] /\ verdict' = Observed
                   /\ UNCHANGED <<cfg, phase, lk, obs>>
+\* {"ev":"CombineT","node":j,"ok":b}: combine.Combine over all node directories, node j's lock being the altered file
+TCombineT == IsEvent("CombineT") /\ Ev.node \in 0..(cfg.n - 1) /\ CombineT(Ev.ok)
 TEnd == /\ IsEvent("End") /\ l = TLen /\ cur.state \in {"pristine", "done"}
         /\ (cfg.flaw # "none" => verdict = "detected") /\ UNCHANGED vars
-TraceNext == TReset \/ TCreate \/ TLoad \/ TVerify \/ TVerifyFlawed \/ TLeaves \/ TKeystores \/ TCombine \/ TDeposits
+TraceNext == TReset \/ TCreate \/ TLoad \/ TVerify \/ TVerifyFlawed \/ TLeaves \/ TKeystores \/ TCombine \/ TCombineT \/ TDeposits
              \/ TTamper \/ TLoadT \/ TVerifyT \/ TEnd
 TraceSpec == TraceInit /\ [][TraceNext]_tvars
 Mark == /\ CheckInv("TamperEvident", TamperEvident \/ Padded) /\ CheckInv("ValuePreserved", ValuePreserved)
